@@ -7,30 +7,70 @@ import Pithos.Props.C01
 namespace Pithos.C13
 open Pithos.S3
 
-/-- **version_frozen.** In a bucket whose versioning is Enabled or Suspended, take any row `r` that
-carries a version id (a ULID version or a delete marker — not the null version). After ANY
-operation that is not a delete — writes, copies, appends, multipart operations, tag changes,
-versioning-state changes, storage-class transitions, bucket operations, reads — the bucket still
-holds a row with the same row id, key, version id, delete-marker flag, parts (hence content and
-size) and ETag. When Last-Modified is not bumped by mere row saves (`touchOnAnySave = false`) its
-`updated` value is unchanged too. Holds for every state satisfying the row invariant, i.e. every
-reachable state, for the code's append behaviour since /repo 8a5dc41 (`appendLatestInPlace = false`). -/
+/-- The deletes that may remove or replace version `r` of bucket `b`: the explicit delete of that
+very version, and — only while the bucket is unversioned — a key-only delete of its key. -/
+def DeletesVersion (op : Op) (b : String) (bk : Bucket) (r : Row) : Prop :=
+  ∃ k' vid im, op = .del b k' vid im ∧ k' = r.key ∧ (vid = some r.vid ∨ (vid = none ∧ bk.ver = .off))
+
+/-- **version_frozen.** Take any row `r` that carries a version id (a ULID version or a delete
+marker — not the null version). After ANY operation other than the explicit delete of that very
+version (and other than a key-only delete in an unversioned bucket) — writes, copies, appends,
+multipart operations, tag changes, versioning-state changes, storage-class transitions, bucket
+operations, reads, key-only deletes in a versioned bucket, explicit deletes of OTHER versions
+including the one that makes `r` current again — the bucket still holds a row with the same row id,
+key, version id, delete-marker flag, parts (hence content and size) and ETag. When Last-Modified
+is not bumped by mere row saves (`touchOnAnySave = false`) its `updated` value is unchanged too.
+Holds for every state satisfying the row invariant, i.e. every reachable state, for the code's
+append behaviour since /repo 8a5dc41 (`appendLatestInPlace = false`). -/
 theorem version_frozen (q : Quirks) (hq : q.appendLatestInPlace = false) (s : State) (hinv : Inv s) (op : Op)
-    (b : String) (bk : Bucket) (r : Row) (hfb : findBucket s b = some bk) (hver : bk.ver ≠ .off)
-    (hr : r ∈ bk.rows) (hv : r.vid ≠ none) (hnd : ∀ b' k vid im, op ≠ .del b' k vid im) :
-    ∃ bk', findBucket (step q s op).1 b = some bk' ∧ ∃ r' ∈ bk'.rows, frozenEq q r r' :=
-  version_frozen_T q hq _ (inv_tick hinv) op b bk r hfb hver hr hv hnd
+    (b : String) (bk : Bucket) (r : Row) (hfb : findBucket s b = some bk)
+    (hr : r ∈ bk.rows) (hv : r.vid ≠ none) (hnd : ¬ DeletesVersion op b bk r) :
+    ∃ bk', findBucket (step q s op).1 b = some bk' ∧ ∃ r' ∈ bk'.rows, frozenEq q r r' := by
+  refine version_frozen_T q hq _ (inv_tick hinv) op b bk r hfb hr hv ?_
+  intro b' k' vid im hop hbb
+  subst hbb
+  constructor
+  · intro h; exact hnd ⟨k', vid, im, hop, h.1, Or.inl h.2⟩
+  · intro hvn hoff hk; exact hnd ⟨k', vid, im, hop, hk, Or.inr ⟨hvn, hoff⟩⟩
 
 /-- The same after any history: the state reached by `ops` satisfies the invariant. -/
 theorem version_frozen_reachable (q : Quirks) (hq : q.appendLatestInPlace = false) (ops : List Op) (op : Op)
-    (b : String) (bk : Bucket) (r : Row) (hfb : findBucket (run q {} ops).1 b = some bk) (hver : bk.ver ≠ .off)
-    (hr : r ∈ bk.rows) (hv : r.vid ≠ none) (hnd : ∀ b' k vid im, op ≠ .del b' k vid im) :
+    (b : String) (bk : Bucket) (r : Row) (hfb : findBucket (run q {} ops).1 b = some bk)
+    (hr : r ∈ bk.rows) (hv : r.vid ≠ none) (hnd : ¬ DeletesVersion op b bk r) :
     ∃ bk', findBucket (step q (run q {} ops).1 op).1 b = some bk' ∧ ∃ r' ∈ bk'.rows,
       r'.parts = r.parts ∧ r'.etag = r.etag ∧ r'.vid = r.vid ∧ r'.key = r.key ∧
       (q.touchOnAnySave = false → r'.updated = r.updated) := by
-  obtain ⟨bk', h1, r', h2, h3⟩ := version_frozen q hq _ (C01.reachable_inv q ops) op b bk r hfb hver hr hv hnd
+  obtain ⟨bk', h1, r', h2, h3⟩ := version_frozen q hq _ (C01.reachable_inv q ops) op b bk r hfb hr hv hnd
   exact ⟨bk', h1, r', h2, h3.2.2.2.2.1.symm, h3.2.2.2.2.2.1.symm, h3.2.2.1.symm, h3.2.1.symm,
     fun h => (h3.2.2.2.2.2.2 h).symm⟩
+
+/-- Deletes that can be recognised as harmless for version `r` of (b, key) from the operation
+alone (without knowing the bucket's versioning state): anything that is not a delete, deletes in
+other buckets or of other keys, and explicit deletes of other version ids. -/
+def HarmlessFor (op : Op) (b key : String) (vid : Option Nat) : Prop :=
+  ∀ b' k' v im, op = .del b' k' v im → b' ≠ b ∨ k' ≠ key ∨ ∃ w, v = some w ∧ w ≠ vid
+
+/-- **version_frozen_run.** Through ANY sequence of such operations the version persists with the
+same content: induction over the sequence, each step by `version_frozen_T`. -/
+theorem version_frozen_run (q : Quirks) (hq : q.appendLatestInPlace = false) (ops : List Op) (b : String) (r : Row)
+    (hv : r.vid ≠ none) (hops : ∀ op ∈ ops, HarmlessFor op b r.key r.vid) :
+    ∀ (s : State) (bk : Bucket), Inv s → findBucket s b = some bk → (∃ r0 ∈ bk.rows, frozenEq q r r0) →
+      ∃ bk', findBucket (run q s ops).1 b = some bk' ∧ ∃ r' ∈ bk'.rows, frozenEq q r r' := by
+  induction ops with
+  | nil => intro s bk _ hfb h; exact ⟨bk, hfb, h⟩
+  | cons op ops ih =>
+    intro s bk hinv hfb ⟨r0, hr0, he0⟩
+    have hstep : ∃ bk1, findBucket (step q s op).1 b = some bk1 ∧ ∃ r1 ∈ bk1.rows, frozenEq q r0 r1 := by
+      refine version_frozen_T q hq _ (inv_tick hinv) op b bk r0 hfb hr0 (by rw [← he0.2.2.1]; exact hv) ?_
+      intro b' k' vid im hop hbb
+      rcases hops op (by simp) b' k' vid im hop with h | h | ⟨w, hw, hne⟩
+      · exact absurd hbb h
+      · exact ⟨fun hh => h (by rw [hh.1, ← he0.2.1]), fun _ _ hk => h (by rw [hk, ← he0.2.1])⟩
+      · exact ⟨fun hh => hne (by rw [hw] at hh; injection hh.2 with e; rw [e, ← he0.2.2.1]), fun hvn => by rw [hw] at hvn; cases hvn⟩
+    obtain ⟨bk1, hfb1, r1, hr1, he1⟩ := hstep
+    have := ih (fun o ho => hops o (List.mem_cons_of_mem _ ho)) (step q s op).1 bk1 (step_inv q s op hinv) hfb1
+      ⟨r1, hr1, he0.trans he1⟩
+    simpa [run] using this
 
 /-- **Negation witness (Last-Modified), code as it is** (`Quirks.code`: `touchOnAnySave = true`):
 version v0 is written, then v1 is written to the same key; v0's `updated` (Last-Modified) moves,
